@@ -236,7 +236,8 @@ func (V4) Request(xid uint32, extra int) Req {
 	if xid%4 == 3 {
 		p.ClientHWAddr = append(net.HardwareAddr{}, OtherHW...)
 	}
-	p.UpdateOption(dhcpv4.OptMessageType(dhcpv4.MessageTypeDiscover))
+	p.UpdateOption(dhcpv4.OptMessageType([]dhcpv4.MessageType{dhcpv4.MessageTypeDiscover, dhcpv4.MessageTypeRequest, dhcpv4.MessageTypeDiscover, dhcpv4.MessageTypeInform,
+		dhcpv4.MessageTypeRelease, dhcpv4.MessageTypeDecline}[(int(xid%5)+extra)%6]))
 	if extra > 0 {
 		p.UpdateOption(dhcpv4.OptGeneric(dhcpv4.GenericOptionCode(225), make([]byte, extra%200)))
 	}
@@ -368,7 +369,11 @@ func xid6(x uint32) dhcpv6.TransactionID {
 }
 
 func (V6) Request(xid uint32, extra int) Req {
-	m := &dhcpv6.Message{MessageType: dhcpv6.MessageTypeSolicit, TransactionID: xid6(xid)}
+	// what kind of message is sent is the caller's business (the clients only transport it): by transaction id and size
+	// variation the requests are Solicits, Requests, Renews, Rebinds, Information-requests, Confirms, Releases, Declines
+	mt := []dhcpv6.MessageType{dhcpv6.MessageTypeSolicit, dhcpv6.MessageTypeRequest, dhcpv6.MessageTypeSolicit, dhcpv6.MessageTypeRenew, dhcpv6.MessageTypeRebind,
+		dhcpv6.MessageTypeInformationRequest, dhcpv6.MessageTypeConfirm, dhcpv6.MessageTypeRelease, dhcpv6.MessageTypeDecline}[(int(xid%7)+extra)%9]
+	m := &dhcpv6.Message{MessageType: mt, TransactionID: xid6(xid)}
 	m.AddOption(dhcpv6.OptElapsedTime(0))
 	// options in the order a client adds them, not in ascending code order (what is sent is what the caller built)
 	m.AddOption(dhcpv6.OptRequestedOption(dhcpv6.OptionDNSRecursiveNameServer, dhcpv6.OptionDomainSearchList))
